@@ -25,7 +25,7 @@ func c15Cfg() *DeclCfg {
 		Kinds:   append(append([]string{}, allKinds...), "map[string]int", "map[string]string", "map[int]string", "map[string]string", "[]string"),
 		MinOpts: 1, MaxOpts: 5, MaxGroups: 2, MaxSub: 1, MaxCmds: 3, MaxDepth: 2, Exec: true,
 		Env: true, Defaults: true, Required: true, Choices: true, Optional: true, Hidden: true, NoIni: true, IniName: true,
-		Base: true, Pos: true, Namespaces: true, Init: true, InitMulti: true, Descriptions: true, Aliases: true, ShortOnly: true, MultiByte: true, DottedCmds: true, DupTags: true, ManyAliases: true, CapCmds: true,
+		Base: true, Pos: true, Namespaces: true, Init: true, InitMulti: true, Descriptions: true, Aliases: true, ShortOnly: true, MultiByte: true, DottedCmds: true, DupTags: true, ManyAliases: true, CapCmds: true, BigGroup: true, CaseLongs: true,
 		ParserOpts: []uint{0, optHelpFlag, optHelpFlag | optPassDoubleDash, optHelpFlag | optPrintErrors | optPassDoubleDash, optIgnoreUnknown, optPassAfterNonOption | optHelpFlag, optHelpFlag | optIgnoreUnknown | optPrintErrors},
 	}
 }
@@ -142,13 +142,25 @@ func (propC15) Gen(r *Rng, idx int, tier string) *Scenario {
 		case 0, 1:
 			sc.Ops = append(sc.Ops, Op{Kind: "iniread", Data: BStr(genIniForDecl(or, sc.Decl, true)), AsDefaults: or.Chance(1, 4)})
 		case 2, 3:
-			sc.Ops = append(sc.Ops, Op{Kind: "parse", Argv: bstrs(genArgvLoose(or, sc.Decl, or.Range(0, 6)))})
-		case 4:
-			sc.Ops = append(sc.Ops, Op{Kind: "help"})
-		case 5:
-			sc.Ops = append(sc.Ops, Op{Kind: "man"})
-		case 6:
-			sc.Ops = append(sc.Ops, Op{Kind: "iniwrite", IniOpts: uint(or.Intn(8)) << 1})
+			argv := genArgvLoose(or, sc.Decl, or.Range(0, 6))
+			if or.Chance(1, 5) {
+				for i := range argv {
+					if strings.HasPrefix(argv[i], "--") && or.Bool() {
+						argv[i] = strings.ToUpper(argv[i]) // an option name spelt in other case is another (or no) option
+					}
+				}
+			}
+			sc.Ops = append(sc.Ops, Op{Kind: "parse", Argv: bstrs(argv)})
+		case 4, 5, 6:
+			op := Op{Kind: []string{"help", "man", "iniwrite"}[or.Intn(3)]}
+			if op.Kind == "iniwrite" {
+				op.IniOpts = uint(or.Intn(8)) << 1
+			}
+			if or.Chance(1, 5) {
+				// the writer fails part-way: what the NEXT evaluation produces must not depend on it
+				op.WFaults = []simrt.WriteFault{{At: or.Intn(3), Accept: or.Pick2([]int{0, 1, 10, 100}), Err: or.Pick([]string{"EPIPE", "ENOSPC", "EIO"}), Sticky: or.Bool()}}
+			}
+			sc.Ops = append(sc.Ops, op)
 		case 7:
 			// completion request
 			argv := genArgvLoose(or, sc.Decl, or.Range(0, 3))
